@@ -821,14 +821,34 @@ def parse_cache_protocol():
     fills = []
     for fn in ("call_global.inc", "call_global_mono.inc"):
         t = " ".join(strip_comments(rd("runtime/src/vm/dispatch/ops/" + fn)).split())
-        for m in re.finditer(r"self\.call_site_cache\[slot\] = crate::vm::CallSiteCacheEntry \{(.*?)\};", t):
-            e = m.group(1)
-            own = re.search(r"owner: (current_func_ptr|new_func_ptr)", e)
-            ok = (re.search(r"bytecode_ptr: bc_ptr,", e) and re.search(r"constants_ptr: const_ptr,", e)
-                  and re.search(r"bytecode_len: bc_len as u32,", e) and re.search(r"constants_len: const_len as u16,", e) and own)
-            fills.append(bool(ok))
-        if "self.call_site_cache[" in re.sub(r"self\.call_site_cache\[slot\] = crate::vm::CallSiteCacheEntry \{", "", t):
-            raise ExtractError(f"{fn}: call_site_cache is written in an unrecognised way")
+        # every struct literal of the entry type: fields in any order, shorthand allowed; bound to a local first or stored directly
+        lits = {}
+        for m in re.finditer(r"(?:let (\w+) = |self\.call_site_cache\[(\w+)\] = )crate::vm::CallSiteCacheEntry \{([^{}]*)\};", t):
+            fields = {}
+            for part in [x.strip() for x in m.group(3).split(",") if x.strip()]:
+                k, _, v = part.partition(":")
+                fields[k.strip()] = (v.strip() or k.strip())
+            ok = (fields.get("bytecode_ptr") == "bc_ptr" and fields.get("constants_ptr") == "const_ptr"
+                  and fields.get("bytecode_len") == "bc_len as u32" and fields.get("constants_len") == "const_len as u16"
+                  and fields.get("owner") in ("current_func_ptr", "new_func_ptr"))
+            if m.group(1):
+                lits[m.group(1)] = ok
+            else:
+                fills.append(ok)
+        # the locals the entry is built from are the callee's own buffers
+        for loc, srcs in [("bc_ptr", ("bc.as_ptr()", "closure.bytecode_ptr")), ("const_ptr", ("consts.as_ptr()", "closure.constants_ptr")),
+                          ("bc_len", ("bc.len()", "closure.bytecode_len")), ("const_len", ("consts.len()", "closure.constants_len"))]:
+            for dm in re.finditer(r"let %s = ([^;]+);" % loc, t):
+                if dm.group(1).strip() not in srcs:
+                    fills.append(False)
+        for m in re.finditer(r"self\.call_site_cache\[(\w+)\] = ([^;{]+);", t):
+            v = m.group(2).strip()
+            if v in lits:
+                fills.append(lits[v])
+            else:
+                raise ExtractError(f"{fn}: call_site_cache is written in an unrecognised way ({v[:60]!r})")
+        if re.search(r"self\.call_site_cache\.(push|insert|swap|extend|truncate|set_len|as_mut_ptr|iter_mut|get_mut|fill)\b", t):
+            raise ExtractError(f"{fn}: call_site_cache is modified through a method the protocol model does not know")
     return dict(kinds=kinds, stores_flush=stores_flush and stores_only_in_access, gc_roots=gc_roots, hit_guard=hit_guard,
                 fills_ok=all(fills) and len(fills) == 4, nfills=len(fills))
 
